@@ -156,8 +156,10 @@ func NewSnapshotEngine(options ...func(engine *Engine)) *Engine {
 }
 
 func (engine *Engine) TakeSnapshot() error {
+	defer verifPoint("exit", engine.directory)
 	engine.startSnapshotFunc()
 	defer engine.finishSnapshotFunc()
+	verifPoint("enter", engine.directory)
 
 	// Extract current time
 	msec := engine.clock.Now().UnixMilli()
@@ -179,6 +181,7 @@ func (engine *Engine) TakeSnapshot() error {
 		return err
 	}
 
+	verifPoint("mkroot", engine.directory)
 	// Open manifest file
 	var md []byte
 	mf, err := os.Open(path.Join(dirname, "manifest.bin"))
@@ -212,6 +215,7 @@ func (engine *Engine) TakeSnapshot() error {
 		}
 	}
 
+	verifPoint("manifest-read", engine.directory)
 	// Get current state
 	snapshotObject := internal.SnapshotObject{
 		State:                      internal.FilterExpiredKeys(engine.clock.Now(), engine.getStateFunc()),
@@ -223,8 +227,10 @@ func (engine *Engine) TakeSnapshot() error {
 		return err
 	}
 
+	verifPoint("state-copied", engine.directory)
 	snapshotHash := md5.Sum(out)
 	if snapshotHash == manifest.LatestSnapshotHash {
+		verifPoint("nothing-new", engine.directory)
 		return errors.New("nothing new to snapshot")
 	}
 
@@ -248,6 +254,7 @@ func (engine *Engine) TakeSnapshot() error {
 		return err
 	}
 
+	verifPoint("mkdir", dirname)
 	// Write state to file
 	if err = replaceFile(path.Join(dirname, "state.bin"), out); err != nil {
 		log.Println(err)
@@ -269,9 +276,11 @@ func (engine *Engine) TakeSnapshot() error {
 		return err
 	}
 
+	verifPoint("published", engine.directory)
 	// Set the latest snapshot in unix milliseconds
 	engine.setLatestSnapshotTimeFunc(msec)
 
+	verifPoint("latest-set", engine.directory)
 	// Reset the change count
 	engine.resetChangeCount()
 
@@ -286,17 +295,22 @@ func replaceFile(name string, content []byte) error {
 	if err != nil {
 		return err
 	}
+	verifPoint("create", tmp)
 	if _, err = f.Write(content); err != nil {
 		_ = f.Close()
 		return err
 	}
+	verifPoint("write", tmp)
 	if err = f.Sync(); err != nil {
 		_ = f.Close()
 		return err
 	}
+	verifPoint("sync", tmp)
 	if err = f.Close(); err != nil {
 		return err
 	}
+	verifPoint("close", tmp)
+	defer verifPoint("rename", name)
 	return os.Rename(tmp, name)
 }
 
@@ -314,6 +328,7 @@ func (engine *Engine) Restore() error {
 		}
 	}()
 
+	verifPoint("restore-manifest-open", engine.directory)
 	manifest := new(Manifest)
 
 	md, err := io.ReadAll(mf)
@@ -346,6 +361,7 @@ func (engine *Engine) Restore() error {
 		}
 	}()
 
+	verifPoint("restore-state-open", engine.directory)
 	sd, err := io.ReadAll(sf)
 	if err != nil {
 		return nil
@@ -356,6 +372,7 @@ func (engine *Engine) Restore() error {
 		return err
 	}
 
+	verifPoint("restore-state-read", engine.directory)
 	engine.setLatestSnapshotTimeFunc(snapshotObject.LatestSnapshotMilliseconds)
 
 	for database, data := range internal.FilterExpiredKeys(engine.clock.Now(), snapshotObject.State) {
